@@ -15,8 +15,8 @@ open Embit Embit.Heap
 /-- functions that modify an argument BY DOCUMENTED CONTRACT and are therefore outside the property (DESIGN
     Appendix D): the in-place `tweak` variants of the secp256k1 binding (both back ends; the copying variants
     `ec_privkey_add / ec_pubkey_add` exist beside them), sink parameters (a hash object / output pointer that the
-    callee exists to write into), and the PSBT scope handed to `sign_input_with_tapkey`, which is the receiver's own
-    scope being signed -/
+    callee exists to write into), and the PSBT scope handed to `sign_input_with_tapkey` / the private `_sign_scope`, which is the
+    receiver's own scope being signed -/
 def contractMutators : List String := [
   "util.ctypes_secp256k1.ec_privkey_tweak_add",
   "util.ctypes_secp256k1.ec_pubkey_tweak_add",
@@ -28,7 +28,8 @@ def contractMutators : List String := [
   "liquid.psetview.PSETView._hash_to(h)",
   "liquid.transaction.AssetIssuance.hash_to(h)",
   "psbt.PSBT.sign_input_with_tapkey(inp)",
-  "psbtview.PSBTView.sign_input_with_tapkey(inp)"]
+  "psbtview.PSBTView.sign_input_with_tapkey(inp)",
+  "psbtview.PSBTView._sign_scope(inp)"]
 
 /-- recorded, unrepaired defect (known_findings.json D31): `Descriptor(...)` and `TapTree(...)` assign
     `k.taproot` on the caller's key objects -/
